@@ -13,7 +13,7 @@ def check(tier, seed, replay=None):
     run.cov["trusted_base"] = wire.WIRE_TRUSTED
     broken = None
     try:
-        wire.maybe_proof(run, "props/C08.v", ["C08_enc"])
+        wire.maybe_proof(run, "props/C08.v", ["C08_enc", "C08_dec"])
     except BrokenTie as e:
         broken = e
     found = False
